@@ -28,7 +28,8 @@ def make_search(rng, model, vocab, t, pool=None, small=False, allow_last=True, a
             if i == n - 1 and aliases and rng.random() < 0.3:
                 alts.append(rng.choice(aliases))
             rng.shuffle(alts)
-            segs[i] = ",".join(alts)
+            # (blanks next to the or-sign belong to the sign, not to the alternatives)
+            segs[i] = rng.choice([",", ",", ",", ",", ", ", " ,"]).join(alts)
             info["ops"].append("comma")
         elif r < p_star + 0.18 and allow_partial and vocab.info[t.name][i]["open"] and segs[i]:
             v = segs[i]
